@@ -51,6 +51,9 @@ BUILDERS = {
     # low heating value: the first mass-iteration residual is negative (over-burn) on some missions
     'iter-lowlhv': dict(iterate_mass=True, max_mass_iters=5, mass_iter_reltol=1e-2, legacy=dict(fuel_LHV=4.38e6)),
     'iter-lowlhv-tight': dict(iterate_mass=True, max_mass_iters=50, mass_iter_reltol=1e-4, legacy=dict(fuel_LHV=4.38e6)),
+    # iteration cap reached with a negative residual
+    'iter-lowlhv-one': dict(iterate_mass=True, max_mass_iters=1, mass_iter_reltol=1e-2, legacy=dict(fuel_LHV=4.38e6)),
+    'iter-lowlhv-two': dict(iterate_mass=True, max_mass_iters=2, mass_iter_reltol=1e-4, legacy=dict(fuel_LHV=4.38e6)),
     'weather-iter': dict(iterate_mass=True, max_mass_iters=5, mass_iter_reltol=1e-2, use_weather=True),
 }
 INTERNAL = ('AttributeError', 'KeyError', 'TypeError', 'IndexError', 'NameError', 'AssertionError', 'UnboundLocalError')
